@@ -221,3 +221,15 @@ Proof.
   - rewrite map_map. reflexivity.
   - repeat constructor; cbn; intuition discriminate.
 Qed.
+
+(* ---- the script gate ---- *)
+Lemma nred_of_tags_zero tags : (nred_of_tags tags =? 0)%N = match tags with [] => true | _ => false end.
+Proof. destruct tags; reflexivity. Qed.
+
+(* every rule body reads the redeemers only through "count == 0" *)
+Lemma rule_fn_gate k later n n' ins fee ret pct mx : (n =? 0)%N = (n' =? 0)%N ->
+  rule_fn k later (mk_tx n ins fee ret pct mx) = rule_fn k later (mk_tx n' ins fee ret pct mx).
+Proof.
+  intros H. destruct k; unfold rule_fn, nocoll, insufficient, nonada, toomany;
+    cbn [t_nred t_inputs t_fee t_ret t_pct t_max]; rewrite ?H; reflexivity.
+Qed.
